@@ -101,8 +101,8 @@ theorem stack_mat_eq_vstack (A B : Csr) (hA : A.WF) (hB : B.WF) (hc : A.ncols = 
   rw [stackMat_ofRows, toDense_ofRows, toDense_ofRows, toDense_ofRows, List.map_append]
   exact ⟨rfl, WF_ofRows _ _ (RowsOk_append okA okB)⟩
 
-/-- `stack_diag(A, B)` = `[[A, 0], [0, B]]` densely (the behaviour the property demands; the code's
-    shortcut for a `B` without lines deviates, see finding `stack_diag-empty-B-shape`). -/
+/-- `stack_diag(A, B)` = `[[A, 0], [0, B]]` densely, including the shortcut `B.shape == (0, 0)` of the
+    code and every `B` with no lines but a non-zero minor dimension (repaired in /repo, 962d765f1). -/
 theorem stack_diag_eq_block_diag (A B : Csr) (hA : A.WF) (hB : B.WF) :
     (stackDiag A B).toDense = diagDense A.toDense A.ncols B.toDense B.ncols ∧ (stackDiag A B).WF := by
   obtain ⟨RA, eA, okA, -⟩ := WF_cases A hA
@@ -461,6 +461,16 @@ theorem stack_diag_csc_eq_block_diag (A B : Csc) (hA : A.WF) (hB : B.WF) :
   obtain ⟨h1, h2⟩ := stack_diag_eq_block_diag A.read B.read hA hB
   refine ⟨?_, h2⟩
   rw [csc_toDense_eq_transpose]
+  have hn : (stackDiagCsc A B).nrows = A.nrows + B.nrows := by
+    show (stackDiag A.read B.read).ncols = A.nrows + B.nrows
+    unfold stackDiag
+    split
+    · next h =>
+      have : B.nrows = 0 := h.2
+      show A.nrows = A.nrows + B.nrows
+      omega
+    · rfl
+  rw [hn]
   show transposeD (stackDiag A.read B.read).toDense (A.nrows + B.nrows) = _
   rw [h1]
   show transposeD (diagDense A.read.toDense A.nrows B.read.toDense B.nrows) (A.nrows + B.nrows) = _
@@ -550,5 +560,31 @@ theorem optimized_storage_spec (A : Csr) :
   · simp only [h, decide_false, Bool.false_eq_true, if_false]
     obtain ⟨d1, d2⟩ := denseToCsr_dense A.toDense A.ncols (length_row_toDense A)
     exact ⟨not_false, d1, d2⟩
+
+/-! ## neighbouring entry points: copy, sparse_array_to_row_col_data, chained calls -/
+
+/-- `copy(A)` is `A` (same arrays, index order untouched) -/
+theorem copy_eq (A : Csr) : copyCsr A = A := rfl
+
+/-- `sparse_array_to_row_col_data(A, remove_nz)`: summing the returned (row, col, value) triplets
+    rebuilds exactly the dense matrix, with or without the explicit zeros. -/
+theorem row_col_data_rebuilds_dense (A : Csr) (hA : A.WF) (removeNz : Bool) :
+    tripletDense (toTriplets A removeNz) A.nrows A.ncols = A.toDense ∧
+    (removeNz = true → ∀ t ∈ toTriplets A removeNz, t.2.2 ≠ 0) := by
+  refine ⟨toTriplets_dense A hA removeNz, ?_⟩
+  intro h t ht
+  subst h
+  simp only [toTriplets, if_true, List.mem_filter, decide_eq_true_eq] at ht
+  exact ht.2
+
+example : toTriplets ⟨2, 2, [0, 2, 3], [1, 0, 1], [5, 0, 7]⟩ true = [(0, 1, 5), (1, 1, 7)] := by decide +kernel
+
+/-- repeated operations compose: zeroing lines of a slice is the dense zeroing of the dense slice
+    (the output of every proved function is well formed, so the theorems chain). -/
+theorem slice_then_zero_dense (A : Csr) (hA : A.WF) (ind lines : List Nat) (hi : ∀ i ∈ ind, i < A.nrows)
+    (hl : ∀ l ∈ lines, l < ind.length) :
+    (zeroLines (sliceLines A ind) lines).toDense = zeroRowsDense (sliceDense A.toDense A.ncols ind) lines := by
+  obtain ⟨h1, h2, _⟩ := slice_eq_dense_index A hA ind hi
+  rw [(zero_rows_eq_dense (sliceLines A ind) h2 lines hl).1, h1]
 
 end PorepyVerif.C35
